@@ -250,8 +250,8 @@ func smokeTest(addr, method string, header http.Header, query url.Values, cookie
 
 type carrierCase struct {
 	Name                  string
-	Header, Query, Cookie string // token per carrier ("" = carrier not used)
-	Method                string // "" = the usual one (GET for the upgrade, POST for /smoke-test)
+	Header, Query, Cookie string      // token per carrier ("" = carrier not used)
+	Method                string      // "" = the usual one (GET for the upgrade, POST for /smoke-test)
 	Extra                 [][2]string // further request headers (the token gate must not depend on them)
 }
 
